@@ -136,6 +136,13 @@ def r3(cx):
     prim_w = {"write_u8", "write_u16", "write_u32", "write_u64"}
     prim_r = {"read_u8", "read_u16", "read_u32", "read_u64"}
     codec.symmetric(cx, enc, dec, "checkpoint metadata", prim_w, prim_r)
+    # only immutable files (tables) may be hard-linked into a checkpoint; the value log's active file, the manifest
+    # and the WAL keep changing in the source and must be byte-copied
+    for c in b.calls:
+        if c.bb in b.live and f.call_may_reach(c, {"std::fs::hard_link"}):
+            cx.check(bool(c.names & {"DatabaseCheckpoint::copy_sstables"}), "`%s` (may hard-link) only handles immutable table files" % c.primary.split("::")[-1], "checkpoint-hardlink|%s" % c.primary.split("::")[-1], c.where(),
+                     "create_checkpoint reaches std::fs::hard_link through `%s`: files that the source keeps appending to (active value-log file, manifest) would be shared between "
+                     "the checkpoint and the live store" % c.primary)
     # copy_sstables copies every live table of the manifest (loop over levels.iter())
     cb = f.body("DatabaseCheckpoint::copy_sstables")
     it = sites(cx, cb, "LevelManifest::iter")
